@@ -1,0 +1,14 @@
+//go:build verif && amd64 && go1.17 && !go1.27
+// +build verif,amd64,go1.17,!go1.27
+
+package encoder
+
+import (
+	"github.com/bytedance/sonic/internal/encoder/alg"
+)
+
+// VerifAlgQuote exposes alg.Quote (caller-chosen destination buffer and the double-quoting mode)
+// to the verification harness under /verif. Built only with the `verif` tag.
+func VerifAlgQuote(buf []byte, val string, double bool) []byte {
+	return alg.Quote(buf, val, double)
+}
